@@ -756,15 +756,54 @@ class RoundGen:
             ref = rng.choice(cands)
             rnode = None
             self.fault_label = "select_several"
-        elif text_sources and rng.random() < 0.15:
+        elif text_sources and rng.random() < (0.5 if any(
+                self.g.sources[t]["text"].startswith("[") for t in text_sources) else 0.25):
             src = rng.choice(text_sources)
             chain = self.pick_chain()
             name = self.fresh_name(chain)
             if name is None:
                 return
             indent = self.goto(chain)
-            self.emit({"k": "inject", "indent": indent, "name": name, "type": "str",
-                       "ref": {"src": src, "query": None}, "unit": None})
+            text = self.g.sources[src]["text"]
+            st = {"k": "inject", "indent": indent, "name": name, "type": "str",
+                  "ref": {"src": src, "query": None}, "unit": None}
+            try:
+                import json as _json
+                parsed = _json.loads(text)
+            except ValueError:
+                parsed = None
+            if isinstance(parsed, list) and parsed and rng.random() < 0.8:
+                # an array kept in a text file, taken whole or cut by a slice
+                flat = not isinstance(parsed[0], list)
+                typ = "int" if DM.all_leaves_int(parsed) and rng.random() < 0.6 else "float"
+                fam, unit = self.unit_for(typ)
+                st.update(type=typ, unit=unit)
+                if flat and rng.random() < 0.6:
+                    n = len(parsed)
+                    if rng.random() < 0.4:
+                        i = rng.randrange(n)
+                        st["slice"] = [[i, i]]
+                    else:
+                        a = rng.randrange(n - 1)
+                        b = rng.randint(a + 1, n)
+                        st["slice"] = [[a, b]]
+                        st["dims"] = rng.choice([[[b - a, b - a]], [[None, n]], [[1, None]]])
+                else:
+                    sh = DM.shape_of(parsed)
+                    st["dims"] = [[k, k] for k in sh]
+            elif isinstance(parsed, (int, float)) and not isinstance(parsed, bool) \
+                    and rng.random() < 0.5:
+                st.update(type="float")
+            self.emit(st)
+            if st.get("slice") and not self.stopped and rng.random() < 0.6:
+                # the host is assigned again later: the slice of its definition is history
+                path = ".".join(chain + [name])
+                node = self.g.nodes.get(path)
+                if node is not None and node["value"] is not None:
+                    v = self.array_value(node["type"], list(DM.shape_of(node["value"]))) \
+                        if isinstance(node["value"], list) else self.number(node["type"])
+                    self.emit({"k": "mod", "indent": 0, "name": path, "value": v, "unit": None})
+                    self.chain_valid = False
             return
         else:
             if not doms:
@@ -1086,6 +1125,11 @@ class DipStoreMachine(Machine):
                              if rng.random() < 0.8]
             # constraints travel with imported copies: import, then modify the copy
             cfg["weights"]["import"] = rng.choice([0, 1, 2])
+            if rng.random() < 0.3:
+                # bounded array nodes filled from text files (whole or sliced), then modified
+                cfg["files"] = True
+                cfg["weights"]["source"] = 2
+                cfg["weights"]["inject"] = 2
         if prop == "C17":
             cfg["refs"] = True
             cfg["files"] = rng.random() < 0.7
@@ -1164,7 +1208,9 @@ class DipStoreMachine(Machine):
                 return None
             return {"op": "write_file", "path": path, "kind": "dip", "stmts": gen.stmts}
         return {"op": "write_file", "path": path, "kind": "text",
-                "text": rng.choice(["hello world", "line one", "Will Smith", "42"])}
+                "text": rng.choice(["hello world", "line one", "Will Smith", "42",
+                                    "[10,20,30,40]", "[1.5,2.5,3.5]", "[[1,2,3],[4,5,6]]",
+                                    "[7,8]"])}
 
     def _gen_round(self, rng):
         cfg = self.cfg
@@ -1293,6 +1339,10 @@ class DipStoreMachine(Machine):
             shape = []
             for lo, hi in node["dims"]:
                 shape.append((hi + 1) if hi is not None else (lo or 1))
+            if len(node["dims"]) > 1 and rng.random() < 0.4:
+                # a value of lower rank than declared (every size within its own bounds)
+                shape = [max(node["dims"][0][0] or 1, 1) if node["dims"][0][1] is None
+                         else node["dims"][0][1]]
             gen.chain_valid = False
             gen.fault_label = "constraint_dims"
             st = {"k": "mod", "indent": 0, "name": path,
